@@ -54,7 +54,9 @@ class Parser(ABC):
                 self.token_list.append(
                     (line_number, line, self._pattern_line.parseString(line))
                 )
-            except pp.ParseException:
+            except (pp.ParseException, KeyError):
+                # KeyError: caseless matching also accepts characters whose case folding is an
+                # ASCII letter (e.g. U+017F for "s"), which the mnemonic tables do not contain
                 raise ParserSyntaxException(line_number=line_number, line=line)
 
     def _segment(self) -> None:
